@@ -196,7 +196,9 @@ class PopenExecutor(concurrent.futures.Executor):
     def __init__(self, max_workers: int = 1):
         self._futures: list[PopenFuture] = list()
         self._shutdown = threading.Event()
-        self._lock = threading.Lock()
+        # re-entrant: halmos' SIGINT/SIGTERM handler calls shutdown(wait=False) on the main thread,
+        # which may be inside submit() (holding the lock) at that very moment
+        self._lock = threading.RLock()
 
         # TODO: support max_workers
 
